@@ -1,6 +1,719 @@
-//! C06 — not built yet.
+//! C06 — timestamps keep their instant and zone through every constructor and codec.
+//!
+//! Case inputs (self-contained):
+//!   `rfc <utc_secs> <nanos> <off_secs> <style> H(zone name)|-`
+//!        the RFC 3339 text of that instant at that offset (written by chrono; style 0 = AutoSi with `Z` for a
+//!        zero offset, 1 = AutoSi with `+00:00`, 2 = nine fractional digits) through
+//!        `DateTime::parse_from_rfc3339` and, with the zone name, `parse_from_rfc3339_with_timezone`
+//!   `zone H(tzid) <t>`
+//!        instants around `t` (an offset transition of the zone, or any instant): t-1h, t-1s, t, t+1s, t+1h and,
+//!        when the offset changes by d at t, t-d-1, t-d, t-d/2, t+d/2, t+d-1, t+d (both sides of the repeated or
+//!        skipped local hour), each with 0, 3, 6 and 9 fractional digits, through Zinc (`to_zinc_string` /
+//!        `from_str`), Hayson (`serde_json`), the C constructors and getters; plus Zinc / Hayson texts that
+//!        carry the offset of the OTHER side of the transition (local times inside the skipped / repeated hour)
+//!   `names`   every zone id, every short name, and near-miss names through `parse_from_rfc3339_with_timezone`
+//!
+//! Correspondence requests (answered by Hs.Drv.C06):
+//!   `C06 offtext <off>`                                 -> `ok H(text)`    FixedOffset's Display text
+//!   `C06 rfc <local_secs> <ns> <off> DB`                -> DT              make_date_time
+//!   `C06 withtz <utc_secs> <ns> H(name) DB`             -> DT              make_date_time_with_tz
+//!   `C06 zenc H(tzid) H(rfc3339 text)`                  -> `ok H(text)`    ToZinc for DateTime
+//!   `C06 jenc H(tzid) H(rfc3339 text)`                  -> `ok H(val) H(tz)|-`
+//!   `C06 zdec <local_secs> <ns> H(offtext) H(name)|- DB`-> DT              zinc parse_datetime at field level
+//!   `C06 jdec <local_secs> <ns> <off> H(name)|- DB`     -> DT              json parse_datetime
+//!   `C06 capi <utc_secs> <ns> H(name) DB`               -> DT + local secs haystack_value_make_tz_datetime + getters
+//!   `C06 zones <count> <fnv of the sorted ids>`         -> `ok`            the translated zone list is the compiled one
+//! `DT ::= ok <utc_secs> <ns> <offset> H(tzid) H(short name) | err`
+//! `DB ::= k (H(tzid) <offset at the instant>)*k` — chrono-tz's answer for the zones the name could mean
+//!        (the model takes the zone offset function as a parameter).
+//!
+//! Oracles on the real code:
+//!   rfc_instant     parse_from_rfc3339 is Err or gives exactly the instant of the text
+//!   with_tz         parse_from_rfc3339_with_timezone(text, name) for a zone id or an unambiguous city name gives
+//!                   that instant in that zone
+//!   zinc_rt / json_rt   decode(encode(dt)) has the same instant, local offset and short zone name (zones with an
+//!                   unambiguous city name)
+//!   capi            the C constructors/getters agree with the Rust value
+//!   stale_offset    a Zinc / Hayson text whose offset is not the zone's at that instant is Err or keeps the instant
+//!   etc_offset      `Etc/GMT-+N` has the constant offset +-N h, `UTC` 0 (the TzDb hypothesis `EtcOk` of the theorems)
+//!   db_offset_range every offset met is a whole number of minutes within -12 h..+14 h (hypothesis `OffsetOk`)
+
 use crate::ctx::{CaseOut, Ctx};
+use crate::gen;
+use crate::rng::Rng;
+use crate::vx::{h, Rd};
+use chrono::{FixedOffset, NaiveDateTime, Offset, SecondsFormat, TimeZone, Timelike, Utc};
+use chrono_tz::Tz;
+use libhaystack::encoding::zinc::decode::from_str as zinc_from_str;
+use libhaystack::encoding::zinc::encode::ToZinc;
+use libhaystack::val::*;
+use std::collections::{HashMap, HashSet};
+use std::ffi::{CStr, CString};
+use std::sync::OnceLock;
 
-pub fn exec(_label: &str, _input: &str, _out: &mut CaseOut) {}
+const Y1980: i64 = 315_532_800;
+const Y2060: i64 = 2_840_140_800;
+const PRECISIONS: [u32; 4] = [0, 123_000_000, 123_456_000, 123_456_789];
 
-pub fn generate(_ctx: &mut Ctx) {}
+fn off_at(tz: &Tz, secs: i64) -> i64 {
+    let ndt = chrono::DateTime::<Utc>::from_timestamp(secs, 0).expect("instant").naive_utc();
+    tz.offset_from_utc_datetime(&ndt).fix().local_minus_utc() as i64
+}
+
+fn unambiguous() -> &'static HashSet<String> {
+    static CELL: OnceLock<HashSet<String>> = OnceLock::new();
+    CELL.get_or_init(|| gen::unambiguous_zones().iter().map(|z| z.name().to_string()).collect())
+}
+
+/// zones a name could mean: by id or by short name
+fn by_name() -> &'static HashMap<String, Vec<Tz>> {
+    static CELL: OnceLock<HashMap<String, Vec<Tz>>> = OnceLock::new();
+    CELL.get_or_init(|| {
+        let mut m: HashMap<String, Vec<Tz>> = HashMap::new();
+        for z in gen::all_zones() {
+            m.entry(z.name().to_string()).or_default().push(z);
+            let s = gen::short_name(&z);
+            if s != z.name() {
+                m.entry(s).or_default().push(z);
+            }
+        }
+        m
+    })
+}
+
+/// `DB` for a name at an instant (UTC and the fixed zones are always included)
+fn db_for(names: &[&str], secs: i64) -> String {
+    let mut zs: Vec<Tz> = vec![chrono_tz::UTC];
+    for n in names {
+        if let Some(v) = by_name().get(*n) {
+            zs.extend(v.iter().copied());
+        }
+        // whatever the prefix search could find
+        for z in gen::all_zones() {
+            if z.name().ends_with(&format!("/{n}")) && !zs.contains(&z) {
+                zs.push(z);
+            }
+        }
+    }
+    let mut seen = HashSet::new();
+    let mut out = Vec::new();
+    for z in zs {
+        if seen.insert(z.name()) {
+            out.push(format!("{} {}", h(z.name()), off_at(&z, secs)));
+        }
+    }
+    format!("{} {}", out.len(), out.join(" "))
+}
+
+fn etc_name(off: i64) -> Option<String> {
+    if off % 3600 != 0 {
+        return None;
+    }
+    let n = off / 3600;
+    Some(if n == 0 {
+        "UTC".to_string()
+    } else if n > 0 {
+        format!("Etc/GMT-{n}")
+    } else {
+        format!("Etc/GMT+{}", -n)
+    })
+}
+
+fn dt_reply(dt: &DateTime) -> String {
+    format!(
+        "ok {} {} {} {} {}",
+        dt.timestamp(),
+        dt.timestamp_subsec_nanos(),
+        dt.offset().fix().local_minus_utc(),
+        h(dt.timezone().name()),
+        h(&dt.timezone_short_name())
+    )
+}
+
+fn tuple(dt: &DateTime) -> (i64, u32, i32, String) {
+    (dt.timestamp(), dt.timestamp_subsec_nanos(), dt.offset().fix().local_minus_utc(), dt.timezone_short_name())
+}
+
+pub fn exec(_label: &str, input: &str, out: &mut CaseOut) {
+    let (cmd, rest) = input.split_once(' ').unwrap_or((input, ""));
+    match cmd {
+        "rfc" => exec_rfc(rest, out),
+        "zone" => exec_zone(rest, out),
+        "names" => exec_names(out),
+        "etc" => exec_etc(out),
+        _ => out.fail("harness", format!("unknown C06 case `{cmd}`")),
+    }
+}
+
+fn rfc_text(secs: i64, ns: u32, off: i32, style: u32) -> Option<String> {
+    let fo = FixedOffset::east_opt(off)?;
+    let dt = fo.timestamp_opt(secs, ns).single()?;
+    Some(match style {
+        0 => dt.to_rfc3339_opts(SecondsFormat::AutoSi, true),
+        1 => dt.to_rfc3339_opts(SecondsFormat::AutoSi, false),
+        _ => dt.to_rfc3339_opts(SecondsFormat::Nanos, true),
+    })
+}
+
+fn exec_rfc(rest: &str, out: &mut CaseOut) {
+    let mut rd = Rd::new(rest);
+    let parsed = (|| Some((rd.num::<i64>()?, rd.num::<u32>()?, rd.num::<i32>()?, rd.num::<u32>()?, rd.hos()?)))();
+    let (secs, ns, off, style, name) = match parsed {
+        Some(x) => x,
+        None => return out.fail("harness", "unparsable C06 rfc input".into()),
+    };
+    let text = match rfc_text(secs, ns, off, style) {
+        Some(t) => t,
+        None => return out.fail("harness", "offset out of chrono's range".into()),
+    };
+    out.nontrivial = true;
+    let local = secs + off as i64;
+    out.req(format!("C06 offtext {off}"), format!("ok {}", h(&FixedOffset::east_opt(off).unwrap().to_string())));
+    // ---- parse_from_rfc3339 ------------------------------------------------------------------
+    let r = DateTime::parse_from_rfc3339(&text);
+    let etc: Vec<String> = etc_name(off as i64).into_iter().collect();
+    let etc_refs: Vec<&str> = etc.iter().map(|s| s.as_str()).collect();
+    out.req(
+        format!("C06 rfc {local} {ns} {off} {}", db_for(&etc_refs, secs)),
+        match &r {
+            Ok(dt) => dt_reply(dt),
+            Err(_) => "err".into(),
+        },
+    );
+    match &r {
+        Ok(dt) => {
+            out.stat(if off % 3600 == 0 { "rfc:ok_whole_hour" } else { "rfc:ok_with_minutes" });
+            if dt.timestamp() != secs || dt.timestamp_subsec_nanos() != ns {
+                out.fail(
+                    "rfc_instant",
+                    format!(
+                        "parse_from_rfc3339({text:?}) = {} i.e. instant {}.{:09}, the text denotes {secs}.{ns:09} (off by {} s)",
+                        dt.to_rfc3339_opts(SecondsFormat::AutoSi, true),
+                        dt.timestamp(),
+                        dt.timestamp_subsec_nanos(),
+                        dt.timestamp() - secs
+                    ),
+                );
+            }
+        }
+        Err(_) => out.stat("rfc:err"),
+    }
+    // FromStr and Value::make_datetime_from_iso are the same constructor
+    let r2 = text.parse::<DateTime>();
+    if r2.as_ref().ok().map(tuple) != r.as_ref().ok().map(tuple) {
+        out.fail("rfc_instant", format!("FromStr and parse_from_rfc3339 disagree on {text:?}"));
+    }
+    // ---- parse_from_rfc3339_with_timezone ----------------------------------------------------
+    if let Some(name) = name {
+        let r = DateTime::parse_from_rfc3339_with_timezone(&text, &name);
+        out.req(
+            format!("C06 withtz {secs} {ns} {} {}", h(&name), db_for(&[&name], secs)),
+            match &r {
+                Ok(dt) => dt_reply(dt),
+                Err(_) => "err".into(),
+            },
+        );
+        check_with_tz("parse_from_rfc3339_with_timezone", &text, &name, secs, ns, &r, out);
+    }
+}
+
+/// "a DateTime built from an instant and a zone name denotes that instant in that zone"
+fn check_with_tz(what: &str, text: &str, name: &str, secs: i64, ns: u32, r: &Result<DateTime, String>, out: &mut CaseOut) {
+    // which zone does the name mean?  a zone id, or the city name of exactly one zone
+    let meant: Option<Tz> = match name.parse::<Tz>() {
+        Ok(z) => Some(z),
+        Err(_) => match by_name().get(name) {
+            Some(v) if v.len() == 1 => Some(v[0]),
+            _ => None,
+        },
+    };
+    match (r, meant) {
+        (Ok(dt), Some(z)) => {
+            out.stat("with_tz:ok");
+            if dt.timestamp() != secs || dt.timestamp_subsec_nanos() != ns || dt.timezone().name() != z.name() {
+                out.fail(
+                    "with_tz",
+                    format!(
+                        "{what}({text:?}, {name:?}) = {} {} — expected instant {secs}.{ns:09} in {}",
+                        dt.to_rfc3339_opts(SecondsFormat::AutoSi, true),
+                        dt.timezone().name(),
+                        z.name()
+                    ),
+                );
+            }
+        }
+        (Err(e), Some(z)) => {
+            out.fail("with_tz", format!("{what}({text:?}, {name:?}) is rejected ({e}) although {name:?} names the zone {}", z.name()));
+        }
+        (Ok(dt), None) => {
+            // an ambiguous or unknown name that the code resolves: the instant must still be kept
+            out.stat("with_tz:ok_other_name");
+            if dt.timestamp() != secs || dt.timestamp_subsec_nanos() != ns {
+                out.fail("with_tz", format!("{what}({text:?}, {name:?}) changed the instant to {}", dt.timestamp()));
+            }
+        }
+        (Err(_), None) => out.stat("with_tz:err_unknown_name"),
+    }
+}
+
+fn exec_names(out: &mut CaseOut) {
+    // every zone id and every short name, at one summer and one winter instant
+    out.nontrivial = true;
+    let mut ids: Vec<String> = gen::all_zones().iter().map(|z| z.name().to_string()).collect();
+    ids.sort();
+    let mut fnv: u64 = 0xcbf29ce484222325;
+    for id in &ids {
+        for b in id.as_bytes().iter().chain(b"\n") {
+            fnv ^= *b as u64;
+            fnv = fnv.wrapping_mul(0x100000001b3);
+        }
+    }
+    out.req(format!("C06 zones {} {fnv}", ids.len()), "ok".into());
+    for z in gen::all_zones() {
+        for secs in [1_593_561_600i64, 1_609_459_200] {
+            let text = rfc_text(secs, 0, 0, 0).unwrap();
+            let mut names = vec![z.name().to_string(), gen::short_name(&z)];
+            names.dedup();
+            for name in names {
+                let r = DateTime::parse_from_rfc3339_with_timezone(&text, &name);
+                out.req(
+                    format!("C06 withtz {secs} 0 {} {}", h(&name), db_for(&[&name], secs)),
+                    match &r {
+                        Ok(dt) => dt_reply(dt),
+                        Err(_) => "err".into(),
+                    },
+                );
+                check_with_tz("parse_from_rfc3339_with_timezone", &text, &name, secs, 0, &r, out);
+            }
+        }
+    }
+}
+
+fn exec_etc(out: &mut CaseOut) {
+    out.nontrivial = true;
+    let mut rng = Rng::new(7);
+    for n in -14i64..=12 {
+        // POSIX sign convention: Etc/GMT-14 is 14 h EAST of Greenwich
+        let name = if n == 0 { "UTC".to_string() } else if n < 0 { format!("Etc/GMT-{}", -n) } else { format!("Etc/GMT+{n}") };
+        let want = -n * 3600;
+        match name.parse::<Tz>() {
+            Ok(z) => {
+                let mut probes = vec![Y1980, Y2060, 0, 1_600_000_000];
+                for _ in 0..200 {
+                    probes.push(rng.range(Y1980, Y2060));
+                }
+                for s in probes {
+                    if off_at(&z, s) != want {
+                        out.fail("etc_offset", format!("{name} has offset {} at {s}, expected {want}", off_at(&z, s)));
+                        break;
+                    }
+                }
+            }
+            Err(_) => out.fail("etc_offset", format!("{name} is not a zone of the database")),
+        }
+    }
+}
+
+/// the C constructors and getters
+fn capi_roundtrip(secs: i64, ns: u32, name: &str) -> Result<(DateTime, i64, u32, i64, u32, String), String> {
+    use libhaystack::c_api::datetime::*;
+    use libhaystack::c_api::value::*;
+    let utc = chrono::DateTime::<Utc>::from_timestamp(secs, ns).ok_or("instant")?.naive_utc();
+    let mut date = Value::Date(Date::from(utc.date()));
+    let mut time = Value::Time(Time::from(utc.time()));
+    let cname = CString::new(name).map_err(|e| e.to_string())?;
+    unsafe {
+        let v = haystack_value_make_tz_datetime(&mut date, &mut time, cname.as_ptr()).ok_or("constructor returned null")?;
+        let dt = match v.as_ref() {
+            Value::DateTime(dt) => *dt,
+            _ => return Err("not a DateTime".into()),
+        };
+        let mut res = Value::Null;
+        let mut get = |utc: bool| -> Result<(i64, u32), String> {
+            if haystack_value_get_datetime_date(v.as_ref(), utc, &mut res) != libhaystack::c_api::ResultType::TRUE {
+                return Err("get_datetime_date failed".into());
+            }
+            let d = match &res {
+                Value::Date(d) => **d,
+                _ => return Err("date getter did not give a Date".into()),
+            };
+            if haystack_value_get_datetime_time(v.as_ref(), utc, &mut res) != libhaystack::c_api::ResultType::TRUE {
+                return Err("get_datetime_time failed".into());
+            }
+            let t = match &res {
+                Value::Time(t) => **t,
+                _ => return Err("time getter did not give a Time".into()),
+            };
+            let ndt = NaiveDateTime::new(d, t);
+            Ok((ndt.and_utc().timestamp(), ndt.nanosecond()))
+        };
+        let (us, un) = get(true)?;
+        let (ls, ln) = get(false)?;
+        let p = haystack_value_get_datetime_timezone(v.as_ref());
+        if p.is_null() {
+            return Err("timezone getter returned null".into());
+        }
+        let tzname = CStr::from_ptr(p).to_string_lossy().to_string();
+        drop(CString::from_raw(p as *mut std::os::raw::c_char));
+        Ok((dt, us, un, ls, ln, tzname))
+    }
+}
+
+/// split `<date>T<time><Z|+hh:mm>[ name]` into (local secs, nanos, offset text, name)
+fn split_zinc(text: &str) -> Option<(i64, u32, String, Option<String>)> {
+    let (stamp, name) = match text.split_once(' ') {
+        Some((a, b)) => (a, Some(b.to_string())),
+        None => (text, None),
+    };
+    let tpos = stamp.find('T')?;
+    let opos = if stamp.ends_with('Z') { stamp.len() - 1 } else { tpos + stamp[tpos..].rfind(|c| c == '+' || c == '-')? };
+    let ndt = NaiveDateTime::parse_from_str(&stamp[..opos], "%Y-%m-%dT%H:%M:%S%.f").ok()?;
+    Some((ndt.and_utc().timestamp(), ndt.nanosecond(), stamp[opos..].to_string(), name))
+}
+
+fn ho(s: &Option<String>) -> String {
+    match s {
+        None => "-".into(),
+        Some(s) => h(s),
+    }
+}
+
+fn exec_zone(rest: &str, out: &mut CaseOut) {
+    let mut rd = Rd::new(rest);
+    let parsed = (|| Some((rd.hs()?, rd.num::<i64>()?)))();
+    let (tzid, t) = match parsed {
+        Some(x) => x,
+        None => return out.fail("harness", "unparsable C06 zone input".into()),
+    };
+    let tz: Tz = match tzid.parse() {
+        Ok(z) => z,
+        Err(_) => return out.fail("harness", format!("{tzid} is not a zone id")),
+    };
+    let unamb = unambiguous().contains(tz.name());
+    out.nontrivial = true;
+    out.stat(if unamb { "zone:unambiguous" } else { "zone:shared_city_name" });
+    let short = gen::short_name(&tz);
+    let (o1, o2) = (off_at(&tz, t - 1), off_at(&tz, t));
+    let d = (o1 - o2).abs();
+    let mut probes = vec![t - 1, t, t - 3600, t + 1, t + 3600];
+    if d > 0 {
+        out.stat(if o2 > o1 { "transition:forward(skipped hour)" } else { "transition:back(repeated hour)" });
+        probes.extend([t - d - 1, t - d, t - d / 2, t + d / 2, t + d - 1, t + d]);
+    } else {
+        out.stat("transition:none");
+    }
+    let mut seen = HashSet::new();
+    probes.retain(|s| (Y1980..=Y2060).contains(s) && seen.insert(*s));
+    for (pi, secs) in probes.iter().copied().enumerate() {
+        let corr = pi < 2; // correspondence requests on t-1 and t
+        for (qi, ns) in PRECISIONS.iter().copied().enumerate() {
+            let dt0 = match tz.timestamp_opt(secs, ns).single() {
+                Some(d) => d,
+                None => continue,
+            };
+            let dt = DateTime::from(dt0);
+            let want = tuple(&dt);
+            if qi == 0 && (want.2 % 60 != 0 || want.2 < -43200 || want.2 > 50400) {
+                out.fail("db_offset_range", format!("chrono-tz gives {tzid} the offset {} s at {secs}: not whole minutes within -12 h..+14 h", want.2));
+            }
+            let rfc = dt.to_rfc3339_opts(SecondsFormat::AutoSi, true);
+            // ---- Zinc ------------------------------------------------------------------------
+            match Value::from(dt).to_zinc_string() {
+                Err(e) => out.fail("zinc_rt", format!("to_zinc_string failed for {rfc} {tzid}: {e}")),
+                Ok(text) => {
+                    let back = zinc_from_str(&text);
+                    if corr {
+                        out.req(format!("C06 zenc {} {}", h(tz.name()), h(&rfc)), format!("ok {}", h(&text)));
+                        match split_zinc(&text) {
+                            Some((local, n2, offtxt, name)) => {
+                                let names: Vec<&str> = name.iter().map(|s| s.as_str()).collect();
+                                out.req(
+                                    format!("C06 zdec {local} {n2} {} {} {}", h(&offtxt), ho(&name), db_for(&names, secs)),
+                                    match &back {
+                                        Ok(Value::DateTime(b)) => dt_reply(b),
+                                        _ => "err".into(),
+                                    },
+                                );
+                            }
+                            None => out.fail("zinc_text", format!("the writer's text {text:?} is not <date>T<time><offset>[ name]")),
+                        }
+                    }
+                    if unamb {
+                        match &back {
+                            Ok(Value::DateTime(b)) if tuple(b) == want => {}
+                            Ok(Value::DateTime(b)) => out.fail(
+                                "zinc_rt",
+                                format!("{text:?} (zone {tzid}) read back as {:?}, written from {:?} (instant, nanos, offset, zone)", tuple(b), want),
+                            ),
+                            Ok(v) => out.fail("zinc_rt", format!("{text:?} read back as {v:?}")),
+                            Err(e) => out.fail("zinc_rt", format!("{text:?} (zone {tzid}) is rejected by the reader: {e}")),
+                        }
+                    }
+                }
+            }
+            // ---- Hayson (one precision per probe; all of them on the correspondence probes) -------
+            if corr || qi == pi % 4 {
+                match serde_json::to_string(&Value::from(dt)) {
+                    Err(e) => out.fail("json_rt", format!("serde_json::to_string failed for {rfc} {tzid}: {e}")),
+                    Ok(json) => {
+                        let back: Result<Value, _> = serde_json::from_str(&json);
+                        if corr {
+                            let jv: serde_json::Value = serde_json::from_str(&json).unwrap_or(serde_json::Value::Null);
+                            let val = jv.get("val").and_then(|v| v.as_str()).unwrap_or("?").to_string();
+                            let tzm = jv.get("tz").and_then(|v| v.as_str()).map(|s| s.to_string());
+                            out.req(format!("C06 jenc {} {}", h(tz.name()), h(&rfc)), format!("ok {} {}", h(&val), ho(&tzm)));
+                            let names: Vec<&str> = tzm.iter().map(|s| s.as_str()).collect();
+                            let mut all = names.clone();
+                            let etc: Vec<String> = etc_name(want.2 as i64).into_iter().collect();
+                            all.extend(etc.iter().map(|s| s.as_str()));
+                            out.req(
+                                format!("C06 jdec {} {ns} {} {} {}", secs + want.2 as i64, want.2, ho(&tzm), db_for(&all, secs)),
+                                match &back {
+                                    Ok(Value::DateTime(b)) => dt_reply(b),
+                                    _ => "err".into(),
+                                },
+                            );
+                        }
+                        if unamb {
+                            match &back {
+                                Ok(Value::DateTime(b)) if tuple(b) == want => {}
+                                Ok(Value::DateTime(b)) => out.fail(
+                                    "json_rt",
+                                    format!("{json} (zone {tzid}) read back as {:?}, written from {:?} (instant, nanos, offset, zone)", tuple(b), want),
+                                ),
+                                Ok(v) => out.fail("json_rt", format!("{json} read back as {v:?}")),
+                                Err(e) => out.fail("json_rt", format!("{json} (zone {tzid}) is rejected by the reader: {e}")),
+                            }
+                        }
+                    }
+                }
+            }
+            // ---- C API -----------------------------------------------------------------------------
+            if corr || qi == (pi + 1) % 4 {
+                for name in [short.as_str(), tz.name()] {
+                    let r = capi_roundtrip(secs, ns, name);
+                    if corr {
+                        out.req(
+                            format!("C06 capi {secs} {ns} {} {}", h(name), db_for(&[name], secs)),
+                            match &r {
+                                Ok((b, _, _, ls, _, _)) => format!("{} {ls}", dt_reply(b)),
+                                Err(_) => "err".into(),
+                            },
+                        );
+                    }
+                    if unamb {
+                        match &r {
+                            Ok((b, us, un, ls, ln, tzname)) => {
+                                let ok = tuple(b) == want
+                                    && (*us, *un) == (secs, ns)
+                                    && (*ls, *ln) == (secs + want.2 as i64, ns)
+                                    && *tzname == short;
+                                if !ok {
+                                    out.fail(
+                                        "capi",
+                                        format!(
+                                            "make_tz_datetime({secs}.{ns:09} UTC, {name:?}) gave {:?}; getters: utc {us}.{un:09}, local {ls}.{ln:09}, zone {tzname:?}; expected {:?}",
+                                            tuple(b),
+                                            want
+                                        ),
+                                    );
+                                }
+                            }
+                            Err(e) => out.fail("capi", format!("make_tz_datetime({secs}.{ns:09} UTC, {name:?}): {e}")),
+                        }
+                    }
+                }
+            }
+        }
+    }
+    // ---- texts carrying the offset of the other side of the transition ---------------------------------
+    if d > 0 && t - 10 >= Y1980 && t + 10 <= Y2060 {
+        for (x, stale) in [(t + 10, o1), (t - 10, o2)] {
+            let fo = match FixedOffset::east_opt(stale as i32) {
+                Some(f) => f,
+                None => continue,
+            };
+            let rfc = fo.timestamp_opt(x, 0).single().unwrap().to_rfc3339_opts(SecondsFormat::AutoSi, true);
+            let text = format!("{rfc} {short}");
+            let back = zinc_from_str(&text);
+            if let Some((local, n2, offtxt, name)) = split_zinc(&text) {
+                let names: Vec<&str> = name.iter().map(|s| s.as_str()).collect();
+                out.req(
+                    format!("C06 zdec {local} {n2} {} {} {}", h(&offtxt), ho(&name), db_for(&names, x)),
+                    match &back {
+                        Ok(Value::DateTime(b)) => dt_reply(b),
+                        _ => "err".into(),
+                    },
+                );
+            }
+            let json = format!(r#"{{"_kind":"dateTime","val":"{rfc}","tz":"{short}"}}"#);
+            let jback: Result<Value, _> = serde_json::from_str(&json);
+            let etc: Vec<String> = etc_name(stale).into_iter().collect();
+            let mut all = vec![short.as_str()];
+            all.extend(etc.iter().map(|s| s.as_str()));
+            out.req(
+                format!("C06 jdec {} 0 {stale} {} {}", x + stale, h(&short), db_for(&all, x)),
+                match &jback {
+                    Ok(Value::DateTime(b)) => dt_reply(b),
+                    _ => "err".into(),
+                },
+            );
+            if unamb {
+                for (what, txt, b) in [("Zinc", &text, back.ok()), ("Hayson", &json, jback.ok())] {
+                    match b {
+                        Some(Value::DateTime(b)) => {
+                            if b.timestamp() != x || b.timezone_short_name() != short {
+                                out.fail(
+                                    "stale_offset",
+                                    format!("{what} {txt:?} denotes the instant {x} in {short}; read as {:?}", tuple(&b)),
+                                );
+                            }
+                        }
+                        Some(v) => out.fail("stale_offset", format!("{what} {txt:?} read as {v:?}")),
+                        None => out.stat("stale_offset:rejected"),
+                    }
+                }
+            }
+        }
+    }
+}
+
+// ---- generators ---------------------------------------------------------------------------------
+
+/// offset transitions of a zone in [from, to): first instant of the new offset
+pub fn transitions(tz: &Tz, from: i64, to: i64) -> Vec<i64> {
+    let step = 6 * 3600;
+    let mut out = Vec::new();
+    let mut s = from;
+    let mut o = off_at(tz, s);
+    while s < to {
+        let e = (s + step).min(to);
+        let oe = off_at(tz, e);
+        if oe != o {
+            // binary search the change in (s, e]
+            let (mut lo, mut hi) = (s, e);
+            while hi - lo > 1 {
+                let mid = lo + (hi - lo) / 2;
+                if off_at(tz, mid) == o {
+                    lo = mid;
+                } else {
+                    hi = mid;
+                }
+            }
+            out.push(hi);
+            o = off_at(tz, hi);
+            // a second change inside the same step is found by continuing from hi
+            s = hi;
+            continue;
+        }
+        s = e;
+    }
+    out
+}
+
+const TROUBLE: &[&str] = &[
+    "Australia/Sydney",
+    "Asia/Kolkata",
+    "Asia/Kathmandu",
+    "Pacific/Kiritimati",
+    "America/St_Johns",
+    "Pacific/Chatham",
+    "Antarctica/Casey",
+    "Arctic/Longyearbyen",
+    "Etc/GMT+12",
+    "Etc/GMT-14",
+    "Europe/London",
+    "America/New_York",
+    "Australia/Lord_Howe",
+    "Antarctica/Troll",
+    "America/Argentina/Buenos_Aires",
+    "America/Indiana/Knox",
+    "UTC",
+    "Etc/UTC",
+    "Brazil/West",
+    "Australia/West",
+    "US/Pacific",
+];
+
+pub fn generate(ctx: &mut Ctx) {
+    ctx.case("etc", "etc");
+    ctx.case("names", "names");
+    // ---- 1. RFC 3339 offsets -12:00 … +14:00 in 15 minute steps (and the rest of chrono's range, sampled) ----
+    let fixed_instants: [(i64, u32); 8] = [
+        (Y1980, 0),
+        (951_868_799, 0),           // 2000-02-29T23:59:59Z
+        (1_615_705_199, 999_000_000), // 2021-03-14T06:59:59.999Z
+        (2_147_483_647, 0),
+        (Y2060 - 1, 999_999_999),
+        (1_700_000_000, 123_456_000),
+        (1_234_567_890, 120_000_000),
+        (1_600_000_000, 1),
+    ];
+    let names = ["Sydney", "Australia/Sydney", "Kolkata", "New_York", "Casey", "Longyearbyen", "GMT+12", "Etc/GMT-14", "UTC", "Nowhere", "sydney", "", "West", "Pacific"];
+    let n_inst = ctx.n(3, 8) as usize;
+    let n_rand = ctx.n(1, 40);
+    let mut offs: Vec<i32> = (-48..=56).map(|q| q * 900).collect(); // -12:00 ..= +14:00
+    for q in [-95, -94, -60, -57, -53, -52, -51, -50, -49, 57, 58, 59, 60, 61, 64, 72, 94, 95] {
+        offs.push(q * 900); // beyond: must be Err or exact as well
+    }
+    offs.push(60);
+    offs.push(-60);
+    offs.push(19 * 60 + 3600 * 5);
+    for off in offs {
+        let mut instants: Vec<(i64, u32)> = fixed_instants.iter().take(n_inst).copied().collect();
+        for _ in 0..n_rand {
+            instants.push((ctx.rng.range(Y1980, Y2060 - 1), gen::subsec(&mut ctx.rng)));
+        }
+        for (i, (secs, ns)) in instants.into_iter().enumerate() {
+            for style in 0..3u32 {
+                if style > 0 && i % 3 != 0 && off != 0 {
+                    continue;
+                }
+                let name = if ctx.rng.chance(2, 3) { Some(ctx.rng.pick(&names).to_string()) } else { None };
+                let nm = match &name {
+                    None => "-".to_string(),
+                    Some(s) => h(s),
+                };
+                ctx.case("rfc", &format!("rfc {secs} {ns} {off} {style} {nm}"));
+            }
+        }
+    }
+    // ---- 2. zones x transitions --------------------------------------------------------------------------
+    let all = gen::all_zones();
+    let mut zones: Vec<Tz> = Vec::new();
+    for n in TROUBLE {
+        if let Ok(z) = n.parse::<Tz>() {
+            zones.push(z);
+        }
+    }
+    if ctx.quick() {
+        let un = gen::unambiguous_zones();
+        for _ in 0..40 {
+            let z = *ctx.rng.pick(&un);
+            if !zones.contains(&z) {
+                zones.push(z);
+            }
+        }
+    } else {
+        for z in all {
+            if !zones.contains(&z) {
+                zones.push(z);
+            }
+        }
+    }
+    for z in zones {
+        let id = h(z.name());
+        let ts = transitions(&z, Y1980, Y2060);
+        ctx.count("transitions");
+        for t in &ts {
+            ctx.case("transition", &format!("zone {id} {t}"));
+        }
+        // instants that are not transitions: the ends of the range and random ones
+        ctx.case("instant", &format!("zone {id} {}", Y1980 + 3600));
+        ctx.case("instant", &format!("zone {id} {}", Y2060 - 3600));
+        for _ in 0..ctx.n(2, 6) {
+            let t = ctx.rng.range(Y1980 + 7200, Y2060 - 7200);
+            ctx.case("instant", &format!("zone {id} {t}"));
+        }
+    }
+}
